@@ -5,6 +5,7 @@ mod parse_ev;
 mod gen;
 mod rt_ev;
 mod api_ev;
+mod span_ev;
 
 use std::collections::HashMap;
 
@@ -58,6 +59,8 @@ fn real_main() {
         "num-events" => api_ev::num_events(&args),
         "quote-events" => api_ev::quote_events(&args),
         "serdeint-events" => api_ev::serdeint_events(&args),
+        "span-events" => span_ev::span_events(&args),
+        "err-events" => span_ev::err_events(&args),
         _ => {
             eprintln!("unknown command {cmd:?}");
             std::process::exit(2);
